@@ -44,6 +44,7 @@ def run(an: Analysis, rep):
     rep.run(r073, an, rep, enc)
     rep.run(r074, an, rep)
     rep.run(r07a, an, rep, enc)
+    rep.run(r07b, an, rep, defs)
     rep.run(r075, an, rep, enc, cdec)
     rep.run(r076, an, rep, enc, defs)
     rep.run(r077, an, rep, enc)
@@ -758,6 +759,53 @@ def r07a(an, rep, enc: FunctionInfo, rule="R07.4"):
             f"{len(W)} witness (default, value) pairs: hidden iff value == default" if not bad else
             f"{bad[0]} - the encoder leaves the field out, the decoder fills in the default, and the value is lost (a function whose docstring is the empty string loads back with "
             f"docstring None; a position override 0 loads back as 'no override'); {len(bad)} of {len(W)} witness pairs wrong")
+
+
+def r07b(an, rep, defs, rule="R07.8"):
+    """A decoder that keeps only some keys of the object it is given (`{k: v for k, v in doc.items() if k in ALLOWED}`) keeps every key the
+    encoder can write for the class it builds: ALLOWED is folded (schema literal / constant collection) and compared with the class's fields."""
+    from sa.feval import FevalError, PureEval
+    n = 0
+    for f in an.closure("from_json"):
+        for dc in ast.walk(f.node):
+            if not (isinstance(dc, ast.DictComp) and len(dc.generators) == 1 and dc.generators[0].ifs):
+                continue
+            g = dc.generators[0]
+            if not (isinstance(g.iter, ast.Call) and isinstance(g.iter.func, ast.Attribute) and g.iter.func.attr == "items" and isinstance(g.target, ast.Tuple)
+                    and len(g.target.elts) == 2 and isinstance(g.target.elts[0], ast.Name)):
+                continue
+            kname = g.target.elts[0].id
+            tests = [t for t in g.ifs if isinstance(t, ast.Compare) and len(t.ops) == 1 and isinstance(t.ops[0], ast.In) and isinstance(t.left, ast.Name) and t.left.id == kname]
+            if not tests:
+                continue
+            # which class is built from the filtered dict in this function?
+            pm_ = {id(ch): par for par in ast.walk(f.node) for ch in ast.iter_child_nodes(par)}
+            asg = pm_.get(id(dc))
+            var = asg.targets[0].id if isinstance(asg, ast.Assign) and len(asg.targets) == 1 and isinstance(asg.targets[0], ast.Name) else None
+
+            def from_var(e):
+                return (isinstance(e, ast.Name) and e.id == var) or (isinstance(e, ast.Call) and len(e.args) == 1 and from_var(e.args[0]))
+            built = [c for c in ast.walk(f.node) if isinstance(c, ast.Call) and isinstance(c.func, ast.Name) and any(k.arg is None and from_var(k.value) for k in c.keywords)]
+            classes = [an.prog.resolve_global(f.module, c.func.id, f) for c in built]
+            classes = [r[1] for r in classes if r and r[0] == "class" and r[1].is_dataclass]
+            if len(classes) != 1:
+                raise AnalysisError(f"{f.qual}: keys of the document are filtered by `{norm_src(tests[0])}` but which class is built from the result is not recognised")
+            ci = classes[0]
+            from .encode_model import inline_locals
+            allowed_e = inline_locals(f.node, tests[0].comparators[0])
+            pe = PureEval(lambda name: None, extra={"_definitions": defs, "JSON_SCHEMA": {"definitions": defs}})
+            pe.module_assigns = {k: v for k, v in f.module.assigns.items() if k not in ("_definitions", "JSON_SCHEMA")}
+            try:
+                allowed = set(pe.ev(allowed_e, {}))
+            except (FevalError, KeyError, TypeError) as ex:
+                raise AnalysisError(f"{f.qual}: the set of keys kept by `{norm_src(tests[0])}` is not foldable ({ex})")
+            n += 1
+            missing = [fl.name for fl in ci.fields if fl.name not in allowed]
+            rep.add(rule, f"{f.qual}::keys kept for {ci.name} cover its fields", not missing, loc(f.module, dc),
+                    f"`{norm_src(tests[0])}` keeps all {len(ci.fields)} fields of {ci.name}" if not missing else
+                    f"`{norm_src(tests[0])}` keeps {len(allowed)} keys; {missing} - which to_json_data writes whenever the field is not at its default - is not among them, so the loaded {ci.name} "
+                    f"silently gets the default (a module compiled under `from __future__ import annotations` loads back with future_annotations=False)")
+    rep.add(rule, "key filters in the decoder", True, "code_data/_json_data.py", f"{n} dict comprehension(s) filtering document keys examined", nontrivial=False)
 
 
 # ----------------------------------------------------------------------------- R07.5
